@@ -20,7 +20,13 @@ impl<'a, V> GenericLibraryFactory<'a, V> {
         expect_library_name: &LibraryName,
         char_stream: impl Iterator<Item = char>,
     ) -> Result<Self, SchemeError> {
-        let lexer = Lexer::from_char_stream(char_stream);
+        Self::from_lexer(expect_library_name, Lexer::from_char_stream(char_stream))
+    }
+
+    pub fn from_lexer(
+        expect_library_name: &LibraryName,
+        lexer: Lexer<impl Iterator<Item = char>>,
+    ) -> Result<Self, SchemeError> {
         let parser = Parser::from_lexer(lexer);
         for statement in parser {
             if let Statement::LibraryDefinition(library_definition) = statement? {
